@@ -77,6 +77,24 @@ Proof.
   - unfold sort_parts_by_potential. split; [now apply sort_NoDup | intros q Hq; now apply sort_In in Hq].
 Qed.
 
+Lemma sort_partitions_cover : forall o ca prev fresh (p2c : p2c_t) c2p q, In q (akeys p2c) ->
+  In q (sort_partitions o ca prev fresh p2c c2p).
+Proof.
+  intros o ca prev fresh p2c c2p q Hq. unfold sort_partitions.
+  destruct (negb fresh && subscriptions_identical o p2c c2p).
+  - set (s := pq_loop (total_len (filter_assigned ca p2c)) prev (filter_assigned ca p2c) []).
+    destruct (mem tp_eqb q s) eqn:E.
+    + apply in_or_app. left. now apply (mem_In tp_eqb tp_spec).
+    + apply in_or_app. right. unfold order_by. apply in_or_app.
+      set (rem := filter (fun p => negb (mem tp_eqb p s)) (akeys p2c)).
+      assert (Hr : In q rem) by (unfold rem; apply filter_In; split; [assumption | now rewrite E]).
+      destruct (mem tp_eqb q (o_sort_unassigned o)) eqn:Eo.
+      * left. apply (dedup_first_spec tp_eqb tp_spec). split; [|tauto]. apply filter_In. split; [now apply (mem_In tp_eqb tp_spec)|].
+        now apply (mem_In tp_eqb tp_spec).
+      * right. apply filter_In. split; [assumption | now rewrite Eo].
+  - unfold sort_parts_by_potential. now apply sort_In.
+Qed.
+
 Lemma remove_first_In_iff : forall (q x : tp) l, NoDup l -> (In x (remove_first tp_eqb q l) <-> In x l /\ x <> q).
 Proof.
   intros q x l N. split.
